@@ -19,7 +19,8 @@ RULE = ("A value v is drawn from integers, dyadic fractions and generic decimals
         "end: ticc_labels with each form of lambda, beta and the covariance floor, same RNG seeds; every result field compared "
         "bitwise with the all-Python-float run. Non-trivial = at least 3 distinct forms compared and (for 1) NW>=2 with W>=2, so "
         "that classes have different occurrence counts; distinct by SHA-1 of the case."
-        ' A separate family uses NW 32..40 (matrices of >= 1024 entries) with weights float32 cannot hold.')
+        ' A separate family uses NW 32..40 (matrices of >= 1024 entries) with weights float32 cannot hold.'
+        ' Floors also 12, 16, 100, 200, 2**-14, 2**-10; weight forms also under a requested floor.')
 ASSUMPTIONS = ["'same numeric value' is enforced: a form is used only if converting v to it and back is exact",
                "bitwise comparison is between executions inside the same process and environment"]
 
